@@ -575,6 +575,14 @@ ROWS = [
     R("_BasePlot.has_data_labels", "bar_chart", PLOT, bools(), group="plot", corpus="plot", cls="boolean"),
     R("_BasePlot.vary_by_categories", "bar_chart", PLOT, bools(), group="plot", corpus="plot", cls="boolean"),
     R("_BasePlot.vary_by_categories@pie", "pie_chart", PLOT, bools(), group="plot", cls="boolean"),
+    # the same two switches on the plots of the other chart families python-pptx creates (each has its own element class)
+    R("_BasePlot.has_data_labels@xy", "xy_chart", PLOT, bools(), group="plotxy", cls="boolean"),
+    R("_BasePlot.vary_by_categories@xy", "xy_chart", PLOT, bools(), group="plotxy", cls="boolean"),
+    R("_BasePlot.has_data_labels@bubble", "bubble_chart", PLOT, bools(), group="plotbub", cls="boolean"),
+    R("_BasePlot.vary_by_categories@bubble", "bubble_chart", PLOT, bools(), group="plotbub", cls="boolean"),
+    R("_BasePlot.has_data_labels@line", "line_chart", PLOT, bools(), group="plotline", cls="boolean"),
+    R("_BasePlot.vary_by_categories@line", "line_chart", PLOT, bools(), group="plotline", cls="boolean"),
+    R("_BasePlot.has_data_labels@pie", "pie_chart", PLOT, bools(), group="plotpie", cls="boolean"),
     R("BarSeries.invert_if_negative", "bar_chart", SER, bools(), group="ser", corpus="barseries", cls="boolean"),
     R("LineSeries.smooth", "line_chart", SER, bools(), group="ser", corpus="lineseries", cls="boolean"),
     R("DataLabel.has_text_frame", "bar_chart", SER + ".points[0].data_label", bools(), group="pdl", corpus="point_label", cls="boolean"),
